@@ -105,6 +105,17 @@ def model_B2(doc):
                 p_["type"] = {"kind": "reference", "name": "DocumentSelector"}
             if (st["name"], p_["name"]) == ("Hover", "range"):
                 p_["type"] = {"kind": "or", "items": [p_["type"], {"kind": "base", "name": "null"}]}
+    # ... and messages keep their methods but are NAMED differently (typeName changed / dropped)
+    for r_ in b["requests"]:
+        if r_["method"] == "textDocument/hover":
+            r_["typeName"] = "HoverInfoRequest"
+        if r_["method"] == "textDocument/foldingRange":
+            r_.pop("typeName", None)
+    for n_ in b["notifications"]:
+        if n_["method"] == "textDocument/publishDiagnostics":
+            n_.pop("typeName", None)
+        if n_["method"] == "exit":
+            n_["typeName"] = "ExitNowNotification"
     for e in b["enumerations"]:
         if e["name"] == "MarkupKind":
             e["values"][0]["value"] = "plaintextX"
@@ -143,6 +154,14 @@ def model_C(doc):
         if isinstance(ro, dict) and ro.get("kind") == "and":
             ro["items"] = ro["items"] + [{"kind": "reference", "name": "DocumentColorOptions"}, {"kind": "reference", "name": "StaticRegistrationOptions"}]
     # several classes with Python-keyword property names (collections of such classes must be ordered)
+    # anonymous literals with SEVERAL required members under equally named properties of two structures
+    # (their derived names collide and are disambiguated by member names), items that are proposed AND
+    # deprecated, unions whose members share a Python type
+    big = lambda: {"kind": "literal", "value": {"properties": [{"name": n_, "type": {"kind": "base", "name": t_}} for n_, t_ in (("line", "uinteger"), ("column", "uinteger"), ("cell", "string"), ("offset", "uinteger"), ("span", "uinteger"), ("index", "uinteger"))]}}
+    c["structures"].append({"name": "VerifSpanOne", "properties": [{"name": "location", "type": big()}]})
+    c["structures"].append({"name": "VerifSpanTwo", "properties": [{"name": "location", "type": big()}, {"name": "mixedNumber", "type": {"kind": "or", "items": [{"kind": "base", "name": "integer"}, {"kind": "base", "name": "uinteger"}, {"kind": "base", "name": "string"}]}, "optional": True}, {"name": "mixedText", "type": {"kind": "or", "items": [{"kind": "base", "name": "string"}, {"kind": "base", "name": "DocumentUri"}, {"kind": "base", "name": "null"}]}}]})
+    c["structures"].append({"name": "VerifBothMarks", "proposed": True, "deprecated": "draft that was withdrawn", "properties": [{"name": "bothMarks", "type": {"kind": "base", "name": "string"}, "optional": True, "proposed": True, "deprecated": "withdrawn"}]})
+    c["enumerations"].append({"name": "VerifBothMarksKind", "type": {"kind": "base", "name": "uinteger"}, "proposed": True, "deprecated": "withdrawn", "values": [{"name": "One", "value": 1, "proposed": True, "deprecated": "withdrawn"}, {"name": "Two", "value": 2}]})
     # two methods that map to the same generated constant / enum-variant name
     c["notifications"].append({"method": "verif/collideName", "typeName": "VerifCollideANotification", "messageDirection": "both", "params": {"kind": "reference", "name": "Position"}})
     c["notifications"].append({"method": "verif/collide_name", "typeName": "VerifCollideBNotification", "messageDirection": "both", "params": {"kind": "reference", "name": "Range"}})
@@ -222,6 +241,8 @@ def main(tier):
 
         rep.fail, rep.inconc = sfail, sinconc
 
+        refs_by_plugin = {}
+
         def do_plugin(plugin):
             nonlocal runs, uuid_total, fs_total
             # on-disk testdata histories use trimmed models (full corpus: in-memory capture below)
@@ -245,6 +266,8 @@ def main(tier):
                 rep.fail("plugin fails on the model|%s" % plugin, {"rc": ref.rc, "tail": ref.out[-600:]})
                 return
             ref_o = owned(plugin, ref.outdir)
+            with lock:
+                refs_by_plugin[plugin] = (ref_o, mA)
             if not ref_o:
                 rep.fail("plugin writes no owned file|%s" % plugin, {})
                 return
@@ -482,6 +505,27 @@ def main(tier):
                     import traceback
 
                     sinconc("history steps aborted: %s: %s" % (type(e).__name__, traceback.format_exc()[-300:]))
+        # all four plugins one after the other INSIDE ONE PROCESS (python first: it customises the model it is
+        # given; testdata appends to it): each output must equal that plugin's fresh-process reference
+        if len(refs_by_plugin) == 4:
+            order = ["python", "testdata", "rust", "dotnet", "python"]
+            xdirs = {}
+            lines = ["import sys, generator.__main__ as g"]
+            for x, pl in enumerate(order):
+                d_ = os.path.join(root, "out-cross-%d-%s" % (x, pl))
+                xdirs[(x, pl)] = d_
+                m_ = refs_by_plugin[pl][1]
+                lines.append("g.main(['--plugin', %r, '--output-dir', %r, '--test-dir', %r]%s)" % (pl, d_, d_ + "-t", (" + ['--model', %r]" % m_[0]) if m_ else ""))
+            env = dict(os.environ, PYTHONPATH=common.REPO, PYTHONHASHSEED="3", PYTHONDONTWRITEBYTECODE="1")
+            px = subprocess.run([common.PY, "-c", "\n".join(lines)], cwd=common.REPO, env=env, capture_output=True, text=True, timeout=900)
+            runs += len(order)
+            histories.append("all plugins one after the other inside one process: %s" % " -> ".join(order))
+            if px.returncode != 0:
+                rep.fail("later run in one process fails|cross-plugin", {"tail": (px.stdout + px.stderr)[-600:]})
+            else:
+                for (x, pl), d_ in xdirs.items():
+                    if owned(pl, d_) != refs_by_plugin[pl][0]:
+                        rep.fail("output differs from the fresh seed-0 run|%s|after other plugins ran in the same process" % pl, {"position_in_process": x, "order": order})
         rep.fail, rep.inconc = _fail, _inconc
         histories.append("testdata:full corpus in memory x hash seeds")
         if len(set(digests)) > 1:
